@@ -156,6 +156,9 @@ class FileScanHelper:
             if not self.__continue_on_error:
                 raise
             self.__handle_scan_error(next_file, this_exception, allow_shortcut=True)
+        except (OSError, UnicodeError) as this_exception:
+            # The file could not be read or is not valid UTF-8 text.
+            self.__handle_scan_error(next_file, this_exception, allow_shortcut=True)
         return False
 
     def __scan_file(
@@ -243,6 +246,9 @@ class FileScanHelper:
         except BadTokenizationError as this_exception:
             if not self.__continue_on_error:
                 raise
+            self.__handle_scan_error(next_file, this_exception, allow_shortcut=True)
+        except (OSError, UnicodeError) as this_exception:
+            # The file could not be read, written, or is not valid UTF-8 text.
             self.__handle_scan_error(next_file, this_exception, allow_shortcut=True)
         return did_fix_file, did_succeed
 
